@@ -239,11 +239,60 @@ Definition chk_is_checked (c : chk) (runid : Z) (r : row) (f : fid) : bool :=
   match c with ChkDb => is_checked runid r | ChkMem l => existsb (Nat.eqb f) l end.
 
 (* ---------------------------------------------------------------- is_dirty *)
+(* The walk over the recorded dependencies of row [r] (file id [f]); [isd] is
+   the recursive dirtiness check of a Modified dependency (open recursion). *)
+Definition dirty_result := res (verdict * world * chk * list event).
+
+Fixpoint walk_deps (isd : world -> chk -> fid -> dirty_result) (runid : Z) (f : fid) (r : row)
+         (ds : list dep) (w : world) (c : chk) (must : list fid) (evs : list event) : dirty_result :=
+  match ds with
+  | [] =>
+      match must with
+      | _ :: _ => Ret (VNeed must, w, c, evs)
+      | [] =>
+          let evs' := if r_ovr r then evs ++ [EvWarnOverride (r_name r)] else evs in
+          match c with
+          | ChkDb => Ret (VClean, set_db w (put_row (dbs w) f (set_checked runid r)), c, evs')
+          | ChkMem l => Ret (VClean, w, ChkMem (f :: l), evs')
+          end
+      end
+  | d :: ds' =>
+      let sub :=
+        match d_mode d with
+        | DCreated =>
+            Ret (if exists_b w (r_name (get_row (dbs w) (d_source d))) then VDirty else VClean,
+                 w, c, [])
+        | DModified => isd w c (d_source d)
+        end in
+      match sub with
+      | EFuel => EFuel
+      | Ret (v, w', c', e') =>
+          match v with
+          | VCycle => Ret (VCycle, w', c', evs ++ e')
+          | VClean => walk_deps isd runid f r ds' w' c' must (evs ++ e')
+          | VDirty =>
+              Ret (match r_csum r with Some _ => VNeed [f] | None => VDirty end,
+                   w', c', evs ++ e')
+          | VNeed l => walk_deps isd runid f r ds' w' c' (must ++ l) (evs ++ e')
+          end
+      end
+  end.
+
+(* a generated file that has disappeared is forgotten as a target *)
+Definition forget_missing (w : world) (f : fid) (r : row) (ns : stamp) : world :=
+  match ns with
+  | SMissing =>
+      if r_gen r
+      then set_db w (put_row (dbs w) f
+             (upd_row r false (r_ovr r) (r_checked r) (r_changed r) (Some 0%Z) (r_stamp r) (r_csum r)))
+      else w
+  | _ => w
+  end.
+
 (* private_is_dirty; returns the verdict, the world (the database may have been
    written), the callback state, and override warnings *)
 Fixpoint is_dirty (fuel : nat) (runid : Z) (w : world) (c : chk) (f : fid)
-         (max_changed : Z) (seen : list fid)
-  : res (verdict * world * chk * list event) :=
+         (max_changed : Z) (seen : list fid) : dirty_result :=
   match fuel with
   | O => EFuel
   | S fuel' =>
@@ -262,53 +311,12 @@ Fixpoint is_dirty (fuel : nat) (runid : Z) (w : world) (c : chk) (f : fid)
     | Some old =>
       let ns := read_stamp w (r_name r) in
       if negb (stamp_eqb old ns) then
-        let w1 :=
-          match ns with
-          | SMissing =>
-              if r_gen r
-              then set_db w (put_row (dbs w) f
-                     (upd_row r false (r_ovr r) (r_checked r) (r_changed r) (Some 0%Z) (r_stamp r) (r_csum r)))
-              else w
-          | _ => w
-          end in
-        Ret (match r_csum r with Some _ => VNeed [f] | None => VDirty end, w1, c, [])
+        Ret (match r_csum r with Some _ => VNeed [f] | None => VDirty end,
+             forget_missing w f r ns, c, [])
       else
-        (* walk the recorded dependencies *)
         let sub_max := Z.max chg (match r_checked r with Some k => k | None => 0%Z end) in
-        (fix walk (ds : list dep) (w : world) (c : chk) (must : list fid) (evs : list event)
-           : res (verdict * world * chk * list event) :=
-           match ds with
-           | [] =>
-               match must with
-               | _ :: _ => Ret (VNeed must, w, c, evs)
-               | [] =>
-                   let evs' := if r_ovr r then evs ++ [EvWarnOverride (r_name r)] else evs in
-                   match c with
-                   | ChkDb => Ret (VClean, set_db w (put_row (dbs w) f (set_checked runid r)), c, evs')
-                   | ChkMem l => Ret (VClean, w, ChkMem (f :: l), evs')
-                   end
-               end
-           | d :: ds' =>
-               let sub :=
-                 match d_mode d with
-                 | DCreated =>
-                     Ret (if exists_b w (r_name (get_row (dbs w) (d_source d))) then VDirty else VClean,
-                          w, c, [])
-                 | DModified => is_dirty fuel' runid w c (d_source d) sub_max (f :: seen)
-                 end in
-               match sub with
-               | EFuel => EFuel
-               | Ret (v, w', c', e') =>
-                   match v with
-                   | VCycle => Ret (VCycle, w', c', evs ++ e')
-                   | VClean => walk ds' w' c' must (evs ++ e')
-                   | VDirty =>
-                       Ret (match r_csum r with Some _ => VNeed [f] | None => VDirty end,
-                            w', c', evs ++ e')
-                   | VNeed l => walk ds' w' c' (must ++ l) (evs ++ e')
-                   end
-               end
-           end) (deps_of (dbs w) r f) w c [] []
+        walk_deps (fun w c s => is_dirty fuel' runid w c s sub_max (f :: seen))
+                  runid f r (deps_of (dbs w) r f) w c [] []
     end end end
   end.
 
